@@ -54,7 +54,7 @@ Definition kwd_full : option kwd :=
   Some (mkKW 1 (Some (mkKI [55] (Some (mkCP (Some 1) None None None None None (Some false) (Some 0) None None None None None))))
              (Some (mkKI [] (Some (mkCP None None (Some 6) None None None None None (Some 16) None None None None)))) (Some []) None (Some 1)).
 Example kwd_roundtrip_sat : kwd_no_falsy_only kwd_full.
-Proof. simpl. split; eexists; split; reflexivity. Qed.
+Proof. simpl. split; reflexivity. Qed.
 
 Theorem kwd_sql_roundtrip : forall k, kc_enums_ok k -> kc_map sql_enum_in (kc_map sql_enum_out k) = k.
 Proof. exact kc_sql_roundtrip. Qed.
